@@ -1,6 +1,103 @@
 package rules
 
-import "rocheck/internal/check"
+import (
+	"fmt"
+	"go/ast"
+	"go/types"
+
+	"rocheck/internal/check"
+	"rocheck/internal/model"
+)
+
+// WATCHDOG-REARM: a timer whose callback ends the output (Timeout) is disarmed while a notification is delivered.
+func ruleWatchdogRearm() check.Rule {
+	return check.Rule{
+		Name:        "WATCHDOG-REARM",
+		FamilyShape: true,
+		Doc:         "for every timer created with time.AfterFunc whose callback sends a terminal notification to the destination (a watchdog: Timeout), each callback of the upstream observer stops that timer on every path before it forwards its notification, and the next callback re-arms it (Reset) on every path after the forward: a watchdog left running while a value is delivered to a slow consumer fires although the source has just emitted, i.e. before a full quiet period",
+		Run: func(c *check.Ctx) {
+			m := c.M
+			n := 0
+			for _, sc := range m.SCs {
+				armed := c.Armed(sc)
+				info := sc.Pkg.TypesInfo
+				for _, t := range sc.Timers {
+					if t.Fn != "AfterFunc" || t.Body == nil {
+						continue
+					}
+					// the callback sends a terminal to the destination
+					watchdog := false
+					for _, e := range sc.Emits {
+						if e.ToDest && e.Kind != model.EmitNext && e.Ctx == t.Body {
+							watchdog = true
+						}
+					}
+					as, ok := m.Parent(t.Pkg, t.Call).(*ast.AssignStmt)
+					if !watchdog || !ok || len(as.Lhs) != 1 {
+						continue
+					}
+					tid, ok := as.Lhs[0].(*ast.Ident)
+					if !ok {
+						continue
+					}
+					tv := objOf(info, tid)
+					isCallOn := func(name string) func(ast.Node) bool {
+						return func(nd ast.Node) bool {
+							found := false
+							ast.Inspect(nd, func(x ast.Node) bool {
+								if _, isLit := x.(*ast.FuncLit); isLit {
+									return false
+								}
+								if call, ok := x.(*ast.CallExpr); ok {
+									if sel, ok := ast.Unparen(call.Fun).(*ast.SelectorExpr); ok && sel.Sel.Name == name {
+										if id, ok := ast.Unparen(sel.X).(*ast.Ident); ok && objOf(info, id) == tv {
+											found = true
+										}
+									}
+								}
+								return !found
+							})
+							return found
+						}
+					}
+					for _, e := range sc.Emits {
+						if !e.ToDest || e.Forwarder || e.Ctx == nil || e.Ctx.Kind != model.KSrc {
+							continue
+						}
+						fn := innermostFunc(m, e.Pkg, e.Node)
+						body := funcBody(fn)
+						if body == nil {
+							continue
+						}
+						n++
+						key := fmt.Sprintf("%s/watchdog-%s", e.Key, tid.Name)
+						switch {
+						case !pathsPassBefore(body, e.Node, isCallOn("Stop")):
+							c.Report(armed, key, e.Pos, "the %s notification is forwarded while the watchdog timer %s may still be armed: it can fire during a slow delivery, i.e. right after the source emitted", model.SlotNames[e.Kind], tid.Name)
+						case e.Kind == model.EmitNext && !pathsPassAfter(body, e.Node, isCallOn("Reset")):
+							c.Report(armed, key, e.Pos, "after forwarding the value the watchdog timer %s is not re-armed on every path: a later silence of the source is never reported", tid.Name)
+						default:
+							if armed {
+								c.OK(key, e.Pos, "watchdog stopped before the forward%s", map[bool]string{true: " and re-armed after it", false: ""}[e.Kind == model.EmitNext])
+							}
+						}
+					}
+					// forwarders (method values of the destination) bypass the watchdog handling
+					for _, e := range sc.Emits {
+						if e.ToDest && e.Forwarder && e.Ctx != nil && e.Ctx.Kind == model.KSrc {
+							n++
+							c.Report(armed, fmt.Sprintf("%s/watchdog-%s", e.Key, tid.Name), e.Pos, "the %s notification of the source is forwarded directly, without stopping the watchdog timer %s", model.SlotNames[e.Kind], tid.Name)
+						}
+					}
+				}
+			}
+			c.Inc("watchdog_forwards", n)
+			c.Note("WATCHDOG-REARM recognised=%d forwards under a watchdog timer", n)
+		},
+	}
+}
+
+var _ = types.Universe
 
 // C16 is claimed only for the clauses whose truth is in the shape of the code; see DESIGN.md section 5.
 func C16() *check.Property {
@@ -10,16 +107,16 @@ func C16() *check.Property {
 		Patterns: CorePatterns,
 		Scope:    []string{ro},
 		Rules: []check.Rule{ruleRelease(), ruleTeardownAllRun(), ruleCtxWatch(), ruleCtxDoneTerminates(), ruleQueueFIFO(), ruleCtxPairing(),
-			ruleTerminalPropagation(), ruleDeadEmission(), ruleNoEmitUnderTeardownLock()},
+			ruleTerminalPropagation(), ruleDeadEmission(), ruleNoEmitUnderTeardownLock(), ruleStateLevel(), ruleWatchdogRearm()},
 		Explanation: "Narrow structural claim. Every clause of C16 that compares wall-clock instants or counts events per window (never early, at most one per window/tick, Timeout only after a full quiet period) is NOT decided: no sound static argument bounds those. " +
 			"Decided are the clauses that are visible in the code's shape: (fall silent) every timer, ticker and looping goroutine of every operator is stopped / signalled by its teardown, on every path of the teardown and even when an earlier release panics (RELEASE, TEARDOWN-ALL-RUN); " +
 			"the context-aware sources watch the subscriber context in every blocking select and the cancellation case ends the output (CTX-WATCH, CTX-DONE-TERMINATES); (never reorder) the queues of Delay and of the combining/buffering operators are filled at the tail and read at the head " +
 			"that is dropped, and a queued notification leaves with the context it entered with (QUEUE-FIFO, CTX-PAIRING); (terminate) a completing source leads to a terminal of the output on every path, nothing is emitted after it, and no notification is sent under a lock the operator's own teardown takes " +
-			"(TERMINAL-PROPAGATION, DEAD-EMISSION, NO-EMIT-UNDER-TEARDOWN-LOCK).",
+			"(TERMINAL-PROPAGATION, DEAD-EMISSION, NO-EMIT-UNDER-TEARDOWN-LOCK); (periodic sources count per subscription) the counters of Interval/Timer are per-subscription state (STATE-LEVEL); (Timeout) the watchdog timer is stopped before every forward and re-armed after a value (WATCHDOG-REARM).",
 		NotDecided:  "every lower bound on time, every per-window / per-tick count, that a value is never emitted early or late, that throttling/sampling pick the right value, Timeout's quiet period; the duration handed to the timer primitives (any larger or scaled operand keeps the lower bounds, so no exact rule exists — DESIGN.md section 5).",
 		Assumptions: []string{"time.Timer/Ticker/AfterFunc semantics", "C03 (teardown runs once) and C01 (a closed subscriber drops late notifications: a timer that fires after the terminal is harmless)"},
 		Floors:      map[string]int{"acquisitions": 150, "ctx_watch_selects": 4, "ctx_done_cases": 5, "queue_head_reads": 15, "complete_slots_checked": 120},
 		Controls: map[string]string{"zz_verif_controls_c03.go": roControl(controlsC03 + controlsC03b), "zz_verif_controls_c05.go": roControl(controlsC05),
-			"zz_verif_controls_c04.go": roControl(controlsC04), "zz_verif_controls_c06.go": roControl(controlsC06), "zz_verif_controls_c09.go": roControl(controlsC09 + controlsC09b)},
+			"zz_verif_controls_c04.go": roControl(controlsC04), "zz_verif_controls_c06.go": roControl(controlsC06), "zz_verif_controls_c09.go": roControl(controlsC09 + controlsC09b), "zz_verif_controls_c12.go": roControl(controlsC12)},
 	}
 }
